@@ -1216,3 +1216,12 @@ def describe(tier):
             "sample comparisons use atol 1e-12 * largest horizontal sample, curve comparisons rtol 1e-9 (200 "
             "consecutive re-orientations accumulate well below that)",
         ])
+
+
+_describe_base = describe
+
+
+def describe(tier):     # noqa: F811 - the base description plus what later rounds added to the space
+    d = _describe_base(tier)
+    d["rule"] = d["rule"] + " " + 'Every recording is constructed with metadata carried over from another recording (deployed and current orientation 123 degrees).'
+    return d
